@@ -39,6 +39,10 @@ EXPLANATION += ' Added: (R7) the extended-XYZ Lattice, the WFX primitive-coeffic
 TRUSTED = ["CPython ast parser", "frozen layout specifications in spec/layouts.json (wwPDB 3.3, GROMACS manual, CTfile V2000)", "np.tril_indices enumerates the lower triangle in row-major order"]
 EXPLANATION += " Added: (R9) the VASP coordinate-mode switch, evaluated on every first character, selects Cartesian exactly for c/C/k/K; (R10) Molden pure/Cartesian tags collected while scanning sections in any order are applied only after the section loop; (R11) the Molden reader's tag branch, evaluated on [5D], [5D7F], [5D10F], [7F], [9G] in several spellings, marks exactly the angular momenta the format assigns to each tag."
 TECHNIQUE += '; finite-domain evaluation of the VASP switch and the Molden tag branch; placement rule for deferred application'
+# --- metadata added for batch 7
+TECHNIQUE += '; reader statements / routines evaluated on model records and model line iterators (fixed-width records with touching fields, blocks, grids, labelled rows)'
+EXPLANATION += " Added: (R5, R6 rewritten) the statements that store the quadrupole (FCHK, Q-Chem log) and the block that attaches WFX gradient rows are evaluated -- six different numbers in the file's component order, a gradient section listing the nuclei in another order than <Nuclear Names> -- instead of matching a permutation literal or an `.index(` call; R6 also requires a CONECT serial that is not in the frame's table to raise rather than be skipped; (R11) Molden tag lines; (R12) repeated blocks of a log follow one precedence (frozen first-wins slots); (R13) GRO box line: nine numbers land at (vector, component) and every entry gets the nanometer factor; (R14) pass-through copies keep their own key; (R15-R18) MOL2, PDB, WFN and CHARMM atom records on model records with touching fields; (R19) Gaussian-log five-column blocks; (R20) cube / VASP grid data order; (R21) WFN / WFX primitive regrouping (build_obasis evaluated)."
+# --- end metadata batch 7
 
 
 def _load_spec():
